@@ -30,19 +30,28 @@ def invalid(obj):
     return None
 
 
+def _wrap(scn):
+    """np_inputs: the program's float literals are numpy.float64 values."""
+    if not scn.get('np_inputs'):
+        return lambda v: v
+    import numpy as np
+    return lambda v: np.float64(v) if type(v) is float else v
+
+
 def execute_program(scn):
     import gearpy.units as U
     heap = []
     steps = []
+    w = _wrap(scn)
     for i, st in enumerate(scn['program']):
         rec = {'i': i, 'op': st['op'], 'exc': None, 'result': None}
         try:
             op = st['op']
             if op == 'new':
-                r = getattr(U, st['kind'])(st['v'], st['u'])
+                r = getattr(U, st['kind'])(w(st['v']), st['u'])
             elif op in BINOPS:
-                a = heap[st['a']] if 'a' in st else st['ka']
-                b = heap[st['b']] if 'b' in st else st['kb']
+                a = heap[st['a']] if 'a' in st else w(st['ka'])
+                b = heap[st['b']] if 'b' in st else w(st['kb'])
                 rec['operands'] = [type(a).__name__, type(b).__name__]
                 r = BINOPS[op](a, b)
             elif op == 'abs':
@@ -99,6 +108,11 @@ def bad_constructions(scn):
     for case in scn.get('badparams', []):
         rec = {'what': case['what'], 'exc': None}
         try:
+            if scn.get('np_inputs'):
+                w = _wrap(scn)
+                case = dict(case, params={
+                    k: ([w(v[0])] + list(v[1:]) if isinstance(v, list)
+                        else w(v)) for k, v in case['params'].items()})
             build_case(case, U, M)
         except Exception as ex:      # noqa
             rec['exc'] = [type(ex).__name__, str(ex)[:200]]
